@@ -86,8 +86,26 @@ def gen(rng, ctx):
                 m[w] = nn
         nl = N.rename_nets(nl, m)
         nl["renamed"] = sorted(m.values())
+    prime = None
+    if "renamed" not in nl and len(nl["inputs"]) >= 2 and rng.random() < 0.15:
+        # nets named like the temporaries the full parser synthesises for expressions, and an earlier, unrelated parse
+        # (same process) of a behavioural module in which exactly those temporaries were created
+        a, b = nl["inputs"][:2]
+        pool = [f"and_{a}_{b}", f"not_{a}", f"or_{a}_{b}", f"xor_{a}_{b}", f"xnor_{a}_{b}", f"not_and_{a}_{b}", f"and_{b}_{a}"]
+        cands = nl["wires"] + nl["outputs"]
+        m = {}
+        for w in rng.sample(cands, min(len(cands), rng.randint(1, 3))):
+            nn = rng.choice(pool)
+            if nn not in m.values() and nn not in cands + nl["inputs"]:
+                m[w] = nn
+        if m:
+            nl = N.rename_nets(nl, m)
+            nl["renamed"] = sorted(m.values())
+            prime = (f"module prime({a}, {b}, p0, p1, p2, p3, p4, p5, p6);\n  input {a}, {b};\n  output p0, p1, p2, p3, p4, p5, p6;\n"
+                     f"  assign p0 = {a} & {b};\n  assign p1 = ~{a};\n  assign p2 = {a} | {b};\n  assign p3 = {a} ^ {b};\n  assign p4 = {a} ~^ {b};\n"
+                     f"  assign p5 = ~({a} & {b});\n  assign p6 = {b} & {a};\nendmodule\n")
     text = N.render(rng, nl, layout=rng.choice(["free", "free", "writer"]), comments=0.0)
-    return {"src": "ast", "nl": nl, "text": text}
+    return {"src": "ast", "nl": nl, "text": text, "prime": prime}
 
 
 def canon(net):
@@ -164,7 +182,15 @@ def check(case, ctx):
         ctx.count("fast_via_from_file")
     else:
         okf, cf = ctx.call(cg.io.verilog_to_circuit, text, name, blackboxes=bbs_arg, fast=True)
-    oks, cs = ctx.call(cg.io.verilog_to_circuit, text, name, blackboxes=bbs)
+    if case.get("prime"):
+        okp, _ = ctx.call(cg.io.verilog_to_circuit, case["prime"], "prime")
+        ctx.count("after_unrelated_behavioural_parse" if okp else "note:prime_text_rejected")
+    kwf = {}
+    if (h >> 16) % 4 == 0:
+        # diagnostics switched on: the parser reports, it does not edit
+        kwf = {"warnings": True}
+        ctx.count("full_parser_with_warnings")
+    oks, cs = ctx.call(cg.io.verilog_to_circuit, text, name, blackboxes=bbs, **kwf)
     ctx.count("cmp:fast_vs_full")
     if not oks:
         ctx.violation("full_parser_raised", f"full parser raised {cs!r} on restricted-subset text{tail}")
@@ -234,5 +260,5 @@ def check(case, ctx):
 
 
 def gates(counters, table, tier):
-    need = ["no_primary_inputs", "input_is_output", "nets_named_like_constants", "src:ast", "src:writer", "src:lib", "with_constants", "unconnected_pins", "with_blackboxes", "graphs_identical", "functions_compared", "lib:c17", "lib:s27", "fast_via_from_file", "blackboxes_as:tuple", "blackboxes_as:set"]
+    need = ["no_primary_inputs", "input_is_output", "nets_named_like_constants", "src:ast", "src:writer", "src:lib", "with_constants", "unconnected_pins", "with_blackboxes", "graphs_identical", "functions_compared", "lib:c17", "lib:s27", "fast_via_from_file", "blackboxes_as:tuple", "blackboxes_as:set", "after_unrelated_behavioural_parse", "full_parser_with_warnings"]
     return [f"{k} seen {counters.get(k, 0)} times" for k in need if counters.get(k, 0) < 2]
